@@ -1,6 +1,7 @@
 import DEngine.Model.Lease
 import DEngine.Lemmas.Lease
 import DEngine.Props.C34
+import DEngine.Lemmas.LeaseTiming
 /-!
 # C12 — Lease reads are served only under a valid leader lease
 
@@ -366,5 +367,114 @@ theorem revoked_from_stepdown_partial (c : Cfg) (s : LState) (op : Op) (ops : Li
 /-- non-vacuity of the partial theorem's hypotheses: a leader with a valid lease receives a higher-term vote request -/
 example : f13bState.stepped = false ∧ (∀ x ∈ f13bState.logTerms, x ≤ f13bState.term) ∧
     adopts f13bState.term (.vote 3) = true ∧ (observe f13bState).valid = true := by decide
+
+/-! ## (c) timing: a valid lease excludes another leader — under H_sticky and H_freshRound -/
+open DEngine.LeaseTiming
+
+/-- the two named hypotheses as one per-step guard -/
+def Hyp (P : Params) : TState → Ev → Bool := fun s e => stickyOk P s e && freshOk P s e
+/-- the model as coded: no extra guard -/
+def AsCoded : TState → Ev → Bool := fun _ _ => true
+
+/-- **Timing theorem.** Premises, all explicit:
+    * `hcfg`  lease < election_timeout_min (provided by config validation: `lease_lt_election_of_validated`);
+    * `H_sticky` (per step, `stickyOk`): a voter grants a vote to another node only when its own election timer
+      has expired — the code does NOT provide this (F29, `h_sticky_needed`);
+    * `H_freshRound` (per step, `freshOk` = `renewalFresh`): a renewal's deadline is at most
+      (send time of a heartbeat round acknowledged by a majority) + lease — the code does NOT provide this
+      (F12, `h_fresh_needed`, `h_fresh_needed_5`);
+    * model assumptions: same-rate clocks, election timer restarted at AppendEntries receipt, timeout ≥ emin,
+      a node of a higher term rejects the leader's AppendEntries, the leader revokes before voting.
+    Conclusion: at every reachable instant (any interleaving, loss, duplication, reordering, delay) at which the
+    fast-path lease test succeeds, no other node has won an election of a higher term. -/
+theorem lease_excludes_other_leader (P : Params) (s0 s : TState) (evs : List Ev)
+    (hcfg : P.lease < P.emin) (h0 : Inv P s0) (hrun : runT P (Hyp P) s0 evs = some s)
+    (hvalid : leaseValid s = true) : otherLeader P s = false := by
+  have hinv := inv_run P evs s0 s h0 hrun
+  have hkey := deadline_before_win P s hinv hcfg
+  have hnow : s.now < s.deadline := by simpa [leaseValid] using hvalid
+  cases hol : otherLeader P s with
+  | false => rfl
+  | true =>
+    unfold otherLeader at hol
+    rw [List.any_eq_true] at hol
+    obtain ⟨w, hw, hwt⟩ := hol
+    have hwt' : P.T < w.term := by simpa using hwt
+    have hle := (hinv.wins_ok w hw).1
+    rcases hkey w hw hwt' with h | h <;> omega
+
+/-- the same from the initial state (all nodes in term `T`, nobody has heard from the leader yet) -/
+theorem lease_excludes_other_leader_init (P : Params) (s : TState) (evs : List Ev)
+    (hcfg : P.lease < P.emin) (hrun : runT P (Hyp P) (init P) evs = some s)
+    (hvalid : leaseValid s = true) : otherLeader P s = false :=
+  lease_excludes_other_leader P (init P) s evs hcfg (inv_init P) hrun hvalid
+
+/-- the configuration premise is what `ReadConsistencyConfig::validate` enforces (re-used from C34) -/
+theorem lease_lt_election_of_validated (c : DEngine.Conf.Cfg) (h : DEngine.Conf.validate c = none) :
+    c.lease.toNat < c.emin.toNat := by
+  have := DEngine.C34.lease_lt_election c h
+  omega
+
+/-- outcome of a schedule: (lease valid, another node has won a higher term) -/
+def outcome (P : Params) (hyp : TState → Ev → Bool) (evs : List Ev) : Option (Bool × Bool) :=
+  (runT P hyp (init P) evs).map (fun s => (leaseValid s, otherLeader P s))
+
+/-- non-vacuity of the theorem: a schedule satisfying both hypotheses on which the lease is valid -/
+def okSchedule : List Ev := [.hb, .recvAE 1 1, .recvAE 2 1, .tick 3, .recvAck 1 1 true, .tick 100]
+example : outcome ⟨3, 2, 250, 500⟩ (Hyp ⟨3, 2, 250, 500⟩) okSchedule = some (true, false) := by decide
+/-- … and one on which an election happens legitimately after the lease ran out -/
+def okElection : List Ev :=
+  [.hb, .recvAE 1 1, .recvAck 1 1 true, .tick 501, .grant 1 1 3, .grant 2 1 3, .win 1 3]
+example : outcome ⟨3, 2, 250, 500⟩ (Hyp ⟨3, 2, 250, 500⟩) okElection = some (false, true) := by decide
+
+/-- The statement one would like for the code as it is (no extra hypothesis). -/
+def LeaseSafeAsCodedStatement : Prop :=
+  ∀ (P : Params) (evs : List Ev) (s : TState), P.lease < P.emin →
+    runT P AsCoded (init P) evs = some s → leaseValid s = true → otherLeader P s = false
+
+/-- F29 witness (3 voters: L = 0, F = 1, C = 2; asymmetric partition L–F and C–F connected, L–C cut):
+    F acknowledges L's heartbeat at time 1 (lease valid until 251) and, at the same instant, votes for C whose
+    timer expired long ago; C wins term 3 while L's lease is valid. Every renewal on this schedule is fresh
+    (`freshOk` holds at every step): only H_sticky is violated. -/
+def f29Schedule : List Ev :=
+  [.hb, .recvAE 1 1, .recvAck 1 1 true, .grant 2 2 3, .grant 1 2 3, .win 2 3, .tick 5]
+theorem h_sticky_needed :
+    outcome ⟨3, 2, 250, 500⟩ (fun s e => freshOk ⟨3, 2, 250, 500⟩ s e) f29Schedule = some (true, true) ∧
+    outcome ⟨3, 2, 250, 500⟩ (Hyp ⟨3, 2, 250, 500⟩) f29Schedule = none := by decide
+
+/-- F12 witness (3 voters, every vote respects the voters' timers — `stickyOk` holds at every step): the ack of
+    the round sent at 1 reaches L at 402, after the round of 401 was sent; the deadline becomes 651 instead of
+    ≤ 251. F's timer (restarted at 1) fires at 501, C votes for it, F wins term 3 at 501 < 651. -/
+def f12Schedule : List Ev :=
+  [.hb, .recvAE 1 1, .tick 100, .hb, .tick 100, .hb, .tick 100, .hb, .tick 100, .hb, .tick 1,
+   .recvAck 1 1 true, .tick 99, .grant 1 1 3, .grant 2 1 3, .win 1 3]
+theorem h_fresh_needed :
+    outcome ⟨3, 2, 250, 500⟩ (fun s e => stickyOk ⟨3, 2, 250, 500⟩ s e) f12Schedule = some (true, true) ∧
+    outcome ⟨3, 2, 250, 500⟩ (Hyp ⟨3, 2, 250, 500⟩) f12Schedule = none := by decide
+
+/-- F12b witness (5 voters, every vote respects the voters' timers): `quorum_confirmed` is computed from the
+    monotone `match_index`. Followers 1 and 2 acknowledged the round of time 1; 10 s later only follower 1
+    acknowledges the round of 10001, yet the stale match of follower 2 still makes the quorum: deadline 10251.
+    Followers 2, 3, 4 (2's timer expired at 501, 3 and 4 never reached) elect 2 while L's lease is valid. -/
+def f12bSchedule : List Ev :=
+  [.hb, .recvAE 1 1, .recvAE 2 1, .recvAck 1 1 false, .recvAck 2 1 true, .tick 10000, .hb, .recvAE 1 10001,
+   .recvAck 1 10001 true, .grant 2 2 3, .grant 3 2 3, .grant 4 2 3, .win 2 3, .tick 5]
+theorem h_fresh_needed_5 :
+    outcome ⟨5, 2, 250, 500⟩ (fun s e => stickyOk ⟨5, 2, 250, 500⟩ s e) f12bSchedule = some (true, true) ∧
+    outcome ⟨5, 2, 250, 500⟩ (Hyp ⟨5, 2, 250, 500⟩) f12bSchedule = none := by
+  decide
+
+theorem lease_safe_as_coded_false : ¬ LeaseSafeAsCodedStatement := by
+  intro h
+  have hw : outcome ⟨3, 2, 250, 500⟩ AsCoded f29Schedule = some (true, true) := by decide
+  unfold outcome at hw
+  cases hr : runT ⟨3, 2, 250, 500⟩ AsCoded (init ⟨3, 2, 250, 500⟩) f29Schedule with
+  | none => rw [hr] at hw; simp at hw
+  | some s =>
+    rw [hr] at hw
+    simp only [Option.map_some, Option.some.injEq, Prod.mk.injEq] at hw
+    have := h ⟨3, 2, 250, 500⟩ f29Schedule s (by decide) hr hw.1
+    rw [hw.2] at this
+    cases this
 
 end DEngine.C12
